@@ -15,11 +15,18 @@ import model_diagnostics._config as cfgmod
 
 from common import write_case_file, shard
 
-VALS = {"none": None, "mpl": "matplotlib", "plotly": "plotly", "inv1": "XXX", "inv2": "Matplotlib", "inv3": 1,
+BARE = object()      # the argument is not passed at all: set_config() / config_context()
+
+
+def kw(v):
+    return {} if v is BARE else {"plot_backend": v}
+
+
+VALS = {"none": None, "bare": BARE, "mpl": "matplotlib", "plotly": "plotly", "inv1": "XXX", "inv2": "Matplotlib", "inv3": 1,
         "inv4": "", "inv5": 0, "inv6": False, "inv7": "plot", "inv8": "lib", "inv9": "matplotlibplotly",
         # invalid values that are containers (a tuple breaks %-formatting of an error message, a list is unhashable)
         "inv10": ("matplotlib", "plotly"), "inv11": (), "inv12": ["matplotlib"], "inv13": (None, None)}
-COQ_ARG = {"none": "ANone", "mpl": "(AVal Matplotlib)", "plotly": "(AVal Plotly)", "inv1": "AInvalid",
+COQ_ARG = {"none": "ANone", "bare": "ANone", "mpl": "(AVal Matplotlib)", "plotly": "(AVal Plotly)", "inv1": "AInvalid",
            "inv2": "AInvalid", "inv3": "AInvalid", "inv4": "AInvalid", "inv5": "AInvalid", "inv6": "AInvalid", "inv7": "AInvalid", "inv8": "AInvalid", "inv9": "AInvalid",
            "inv10": "AInvalid", "inv11": "AInvalid", "inv12": "AInvalid", "inv13": "AInvalid"}
 COQ_B = {"matplotlib": "Matplotlib", "plotly": "Plotly"}
@@ -52,7 +59,7 @@ def exec_prog(prog, trace, flat, av):
         if k == "set":
             flat.append(f"SetC {COQ_ARG[node[1]]}")
             try:
-                set_config(plot_backend=VALS[node[1]])
+                set_config(**kw(VALS[node[1]]))
                 out = "Done"
             except ValueError:
                 out = "ValueError"
@@ -85,8 +92,10 @@ def exec_prog(prog, trace, flat, av):
             flat.append(f"Enter {COQ_ARG[node[1]]}")
             entered = False
             try:
-                with config_context(plot_backend=VALS[node[1]]):
+                with config_context(**kw(VALS[node[1]])):
                     entered = True
+                    if node[1].startswith("inv"):
+                        PROPERTY_FAILS.append(f"invalid backend {VALS[node[1]]!r} accepted by config_context (no ValueError); configuration inside the block {get_config()}")
                     observe("Done", trace)
                     exec_prog(node[2], trace, flat, av)
                     flat.append(f"Leave {'true' if node[3] else 'false'}")
@@ -134,7 +143,7 @@ def gen_prog(rng, budget, depth):
 
 def all_progs(n):
     """all programs with exactly n operations over a reduced alphabet (exhaustive tier)"""
-    vals = ["none", "mpl", "plotly", "inv1", "inv4", "inv7"]
+    vals = ["none", "bare", "mpl", "plotly", "inv1", "inv4", "inv7"]
     if n == 0:
         yield []
         return
